@@ -288,8 +288,8 @@ Definition build_response_of (a : resp_args) : bytes :=
   build_http_response (sa_status a) (sa_version a) (sa_reason a) (sa_headers a) (sa_body a)
                       (sa_close a) (sa_nocl a).
 
-(* no CR and no LF *)
-Definition no_crlf (l : bytes) : bool := forallb (fun x => negb (x =? CR) && negb (x =? LF)) l.
+(* no CR (a line is cut at the first CR LF; a bare LF stays inside its line) *)
+Definition no_cr (l : bytes) : bool := forallb (fun x => negb (x =? CR)) l.
 Definition no_sp (l : bytes) : bool := forallb (fun x => negb (x =? SP)) l.
 (* v.strip() == v *)
 Definition stripped (l : bytes) : bool :=
@@ -300,8 +300,8 @@ Definition stripped (l : bytes) : bool :=
 
 (* a header (name, value) the builders can emit and the parser reads back unchanged *)
 Definition ok_name (k : bytes) : bool :=
-  nonempty k && no_crlf k && forallb (fun x => negb (x =? COLON)) k && stripped k.
-Definition ok_value (v : bytes) : bool := no_crlf v && stripped v.
+  nonempty k && no_cr k && forallb (fun x => negb (x =? COLON)) k && stripped k.
+Definition ok_value (v : bytes) : bool := no_cr v && stripped v.
 Definition ok_header (kv : bytes * bytes) : bool := ok_name (fst kv) && ok_value (snd kv).
 
 (* header names pairwise different, case-insensitively *)
@@ -349,17 +349,17 @@ Definition arg_headers (h : option bdict) : bdict := match h with Some d => d | 
 (* domain of the request round trip: exactly what build_http_request does not check.
    [u] is what Url.from_bytes makes of the target (from_bytes is treated as opaque). *)
 Definition wf_req_args (ua : bytes) (a : req_args) : bool :=
-  no_sp (ra_method a) && no_crlf (ra_method a) &&
-  no_sp (ra_url a) && no_crlf (ra_url a) &&
-  no_crlf (ra_version a) &&
+  no_sp (ra_method a) && no_cr (ra_method a) &&
+  no_sp (ra_url a) && no_cr (ra_url a) &&
+  no_cr (ra_version a) &&
   forallb ok_header (arg_headers (ra_headers a)) && nodup_ci (map fst (arg_headers (ra_headers a))) &&
   match ra_ctype a with Some ct => ok_value ct | None => true end &&
   (ra_noua a || ok_value ua) &&
   args_framing_ok (arg_headers (ra_headers a)) (ra_body a) (truthy (ra_body a)).
 
 Definition wf_resp_args (a : resp_args) : bool :=
-  no_sp (sa_version a) && no_crlf (sa_version a) &&
-  no_crlf (or_empty (sa_reason a)) &&
+  no_sp (sa_version a) && no_cr (sa_version a) &&
+  no_cr (or_empty (sa_reason a)) &&
   forallb ok_header (arg_headers (sa_headers a)) && nodup_ci (map fst (arg_headers (sa_headers a))) &&
   args_framing_ok (arg_headers (sa_headers a)) (sa_body a) (negb (sa_nocl a)).
 
